@@ -73,10 +73,10 @@ type scripted struct {
 	slotErr string
 	pemCert []byte
 	cert    *x509.Certificate
-	log     []string // what the agent received, for C13
+	log     []string      // what the agent received, for C13
 	key     ssh.PublicKey // the identity this agent lists (default: the fixed Ed25519 key)
-	quiet   bool     // follow-up traffic: not logged
-	kept    []kept   // arguments retained by the agent, re-read after later requests
+	quiet   bool          // follow-up traffic: not logged
+	kept    []kept        // arguments retained by the agent, re-read after later requests
 }
 
 // kept: an argument the served agent holds on to (as a real agent does with a hardware
@@ -213,8 +213,10 @@ func (s *scripted) slot(kind, slot string) (*x509.Certificate, error) {
 	}
 	return nil, errors.New("unknown slot " + slot)
 }
-func (s *scripted) ReadSlot(slot string) (*x509.Certificate, error)   { return s.slot("readslot", slot) }
-func (s *scripted) AttestSlot(slot string) (*x509.Certificate, error) { return s.slot("attestslot", slot) }
+func (s *scripted) ReadSlot(slot string) (*x509.Certificate, error) { return s.slot("readslot", slot) }
+func (s *scripted) AttestSlot(slot string) (*x509.Certificate, error) {
+	return s.slot("attestslot", slot)
+}
 func (s *scripted) AddSmartcardKey(string, []byte, time.Duration, bool) error {
 	return errors.New("unsupported")
 }
